@@ -829,6 +829,8 @@ def run(ctx):
         count, size overflow and queue verdict"""
         def __init__(self):
             self.rows = []
+            self.seqs = []
+            self.openfail = []
 
         def tracked_global(self, path):
             return True
@@ -836,13 +838,22 @@ def run(ctx):
         def precise_arith(self, path):
             return True
 
+        def seq(self, E, e):
+            E.set('$seq', fs(tuple(g1(E, '$seq', ())) + (e,)))
+
         def prim_qmail_open(self, E, x, args):
-            return [Outcome(ret=fs(0))]
+            self.seq(E, 'open')
+            return [Outcome(ret=fs(0)), Outcome(ret=fs(-1), sets={'$openfailed': fs(1)}, log='qmail_open fails')]
 
         def _n(self, E, x, args):
             return [Outcome(ret=TOP)]
 
-        prim_qmail_qp = prim_received = prim_qmail_from = prim_qmail_to = prim_qmail_put = prim_qmail_puts = prim_flush = prim_fmt_ulong = prim_now = _n
+        def _e(self, E, x, args):
+            self.seq(E, {'qmail_from': 'from', 'qmail_put': 'put', 'qmail_puts': 'put', 'qmail_to': 'to'}.get(x.callee, x.callee))
+            return [Outcome(ret=TOP)]
+
+        prim_qmail_qp = prim_flush = prim_fmt_ulong = prim_now = _n
+        prim_received = prim_qmail_from = prim_qmail_to = prim_qmail_put = prim_qmail_puts = _e
 
         def prim_blast(self, E, x, args):
             hp = args[0]
@@ -861,13 +872,16 @@ def run(ctx):
                     elif g1(E, 'G:databytes'):
                         st['G:bytestooverflow'] = fs(3)
                     outs.append(Outcome(ret=TOP, sets=st, log='message read: %d hops, size overflow=%d' % (h, over)))
+            self.seq(E, 'blast')
             return outs
 
         def prim_qmail_fail(self, E, x, args):
             E.set('$failed', fs(1))
+            self.seq(E, 'fail')
             return [Outcome(ret=TOP)]
 
         def prim_qmail_close(self, E, x, args):
+            self.seq(E, 'close')
             outs = [Outcome(ret=fs(('str', 'Dpolicy')), sets={'$qq': fs('D')}), Outcome(ret=fs(('str', 'Zbusy')), sets={'$qq': fs('Z')})]
             if not g1(E, '$failed', 0):
                 outs.append(Outcome(ret=fs(('str', '')), sets={'$qq': fs('')}))
@@ -883,13 +897,19 @@ def run(ctx):
         def on_return(self, E, fn, val):
             if fn.name == 'smtp_data' and g1(E, '$qq') is not None:
                 self.rows.append((g1(E, 'G:databytes'), g1(E, '$hops'), g1(E, '$over'), g1(E, '$qq'), g1(E, '$failed', 0), g1(E, '$code'), E.trace.list()))
+                self.seqs.append((tuple(g1(E, '$seq', ())), g1(E, '$hops'), E.trace.list()))
+            elif fn.name == 'smtp_data' and g1(E, '$openfailed'):
+                self.openfail.append((tuple(g1(E, '$seq', ())), g1(E, '$code'), E.trace.list()))
     badack = None
     nrows = 0
+    all_seqs, all_openfail = [], []
     for db_ in (0, 10):
         AH = AckHooks()
         e_ = Engine(db, prog, AH)
         e_.run(sd, {'G:seenmail': fs(1), 'G:rcptto.len': fs(5), 'G:databytes': fs(db_), 'G:bytestooverflow': fs(0)})
         rep.count_states(e_.states, e_.transitions)
+        all_seqs += AH.seqs
+        all_openfail += AH.openfail
         for dbv, hops, over, qq, failed, code, tr in AH.rows:
             nrows += 1
             if hops >= maxhops and not failed:
@@ -927,91 +947,24 @@ def run(ctx):
     from qv.esp import Env
     maxhops = db.unit('qmail-smtpd.c').macro_int('MAXHOPS')
     r4.check(maxhops == 100, 'MAXHOPS==100', 'qmail-smtpd.c', 'MAXHOPS is %s' % maxhops)
-    bl = sd.calls('blast')
-    closes = sd.calls('qmail_close')
-    froms = sd.calls('qmail_from')
-    if not (closes and froms and bl):
-        raise AnalysisBroken('smtp_data: qmail_close/qmail_from/blast not found')
-    hv = None
-    a0 = bl[0].args[0].strip()
-    if a0.k == 'un' and a0.op == '&':
-        hv = a0.args[0].var
-    if hv is None:
-        raise AnalysisBroken('smtp_data: blast() is not given the address of a hop counter')
-    ev_eng = Engine(db, prog, QHooks())
-    EE = Env(ev_eng, sd, {}, {}, None)
-    hvp = ev_eng.qualify(sd, hv)
-
-    def hopval(x, h):
-        return ev_eng.concrete(EE, x, {hvp: h})
-    # expressions whose value separates 99 from 100 hops (any spelling, any polarity)
-    thr = [x for x in sd.all_x() if x.k in ('bin', 'un') and hv in x.refs() and hopval(x, 99) is not None and hopval(x, 100) is not None and
-           bool(hopval(x, 99)) != bool(hopval(x, 100)) and bool(hopval(x, 100)) == bool(hopval(x, 5000)) and bool(hopval(x, 99)) == bool(hopval(x, 0))]
-    r4.check(bool(thr), 'hop-threshold-separates-99-from-100', sd.unit + ':smtp_data', 'no expression over the hop count changes value exactly between 99 and 100')
-    # a qmail_fail between blast and close that is taken exactly when the threshold expression says "100 or more"
-    okf = False
-    for f in sd.calls('qmail_fail'):
-        if not (sd.dominates(bl[0], f) and not sd.can_reach(sd.pos[closes[0].id][0], sd.pos[f.id][0])):
-            continue
-        for c, t in sd.guards(f, fresh=False) or []:
-            # the guard is the threshold expression itself, or a variable assigned from it
-            cands = []
-            if any(y.id in {z.id for z in c.walk()} for y in thr):
-                cands.append((c, None))
-            p = _cmp_parts(c)
-            if p is not None and p[0].var:
-                for d in sd.all_x():
-                    if d.k == 'asg' and d.op == '=' and d.args[0].var == p[0].var and any(y.id in {z.id for z in d.args[1].walk()} for y in thr) and sd.dominates(d, f):
-                        cands.append((c, d))
-            for cc, d in cands:
-                if d is None:
-                    v100, v99 = hopval(cc, 100), hopval(cc, 99)
-                    if v100 is not None and bool(v100) == t and bool(v99) != t:
-                        okf = True
-                else:
-                    gv100, gv99 = hopval(d.args[1], 100), hopval(d.args[1], 99)
-                    pf = _cmp_parts(cc)[1]
-                    if gv100 is not None and pf(gv100) == t and pf(gv99) != t:
-                        okf = True
-    r4.check(okf, 'too-many-hops->qmail_fail-before-close', sd.unit + ':smtp_data', 'no qmail_fail between blast() and qmail_close() that is taken exactly for 100 or more hops')
-    # ordering open < received < blast < from < close
-    seq = [sd.calls('qmail_open'), sd.calls('received'), bl, froms, closes]
-    oks = all(s for s in seq) and all(sd.dominates(seq[i][0], seq[i + 1][0]) for i in range(len(seq) - 1))
-    r4.check(oks, 'smtpd:open<received<blast<from<close', sd.unit + ':smtp_data', 'call order in smtp_data changed')
-    g = sd.guards(seq[1][0]) if seq[1] else []
-    okq = False
-    for c, t in g or []:
-        z = branch_zero_test(c, t, lambda v: v.strip().k == 'call' and v.strip().callee == 'qmail_open')
-        p = _cmp_parts(c)
-        if p is not None and p[0].strip().k == 'call' and p[0].strip().callee == 'qmail_open' and p[1](-1) != t and p[1](0) == t:
-            okq = True
-    r4.check(okq, 'smtpd:qmail_open-checked', sd.unit + ':smtp_data', 'received()/blast() run although qmail_open failed')
-
-    def counted_put(f, c):
-        """the single-byte qmail_put c in f is preceded by: if (bytestooverflow) if (!--bytestooverflow) qmail_fail"""
-        for b in f.blocks.values():
-            cnd = b.cond
-            if cnd is None or not f.dominates(cnd, c):
-                continue
-            if branch_zero_test(cnd, True, lambda v: v.path() == 'G:bytestooverflow') != 'nonzero':
-                continue
-            decs = [x for x in f.all_x() if x.k == 'un' and x.op in ('pre--', 'post--') and x.args[0].path() == 'G:bytestooverflow' and
-                    (f.pos[x.id][0] == b.succs[0] or f.can_reach(b.id, f.pos[x.id][0])) and f.can_reach(f.pos[x.id][0], f.pos[c.id][0])]
-            for d in decs:
-                for q in f.calls('qmail_fail'):
-                    for cc, t in f.guards(q, fresh=False) or []:
-                        if d.id in {z.id for z in cc.walk()}:
-                            p = _cmp_parts(cc)
-                            # taken when the decremented value is 0
-                            if p is not None and p[1](0) == t and p[1](1) != t and d.op == 'pre--':
-                                if f.can_reach(f.pos[q.id][0], f.pos[c.id][0]) or f.pos[q.id][0] == f.pos[c.id][0]:
-                                    return True
-        return False
-    # smtpd: every qmail_put reachable from blast() is a counted put
-    blf = prog.fn('blast', 'qmail-smtpd.c')
-    puts = deep_calls(prog, blf, 'qmail_put')
-    r4.check(bool(puts) and all(counted_put(f, c) for f, c in puts), 'smtpd:body-bytes-are-counted-before-they-are-queued', 'qmail-smtpd.c:blast/put',
-             'a body byte reaches qmail_put without the countdown if (bytestooverflow) if (!--bytestooverflow) qmail_fail before it')
+    # smtp_data over (hop count, size overflow, queue verdict) — the runs of rule 3: what reaches the queue interface, in which order
+    bad_order = bad_fail = None
+    for seq_, hops_, tr_ in all_seqs:
+        ks = [k_ for k_ in seq_ if k_ in ('open', 'received', 'blast', 'from', 'close')]
+        if ks != ['open', 'received', 'blast', 'from', 'close'] and bad_order is None:
+            bad_order = ('smtp_data hands the message over as %s; documented: open, Received line, message, envelope, close' % (list(seq_),), tr_)
+        if hops_ is not None and maxhops is not None:
+            f_between = 'fail' in seq_ and 'blast' in seq_ and 'close' in seq_ and seq_.index('blast') < seq_.index('fail') < len(seq_) - 1 - seq_[::-1].index('close') + 1
+            if hops_ >= maxhops and not f_between and bad_fail is None:
+                bad_fail = ('a message with %d hop fields (limit %d) reaches the queue as %s: it must be failed after it was read and before the queue is asked' % (hops_, maxhops, list(seq_)), tr_)
+    if not all_seqs:
+        raise AnalysisBroken('smtp_data: no complete hand-over explored')
+    r4.check(bad_order is None, 'smtpd:open<received<blast<from<close', sd.unit + ':smtp_data', bad_order[0] if bad_order else '%d hand-overs' % len(all_seqs), bad_order[1] if bad_order else None)
+    r4.check(bad_fail is None, 'too-many-hops->qmail_fail-before-close', sd.unit + ':smtp_data', bad_fail[0] if bad_fail else '', bad_fail[1] if bad_fail else None)
+    bad_open = [(list(sq_), code_) for sq_, code_, tr_ in all_openfail if list(sq_) != ['open'] or code_ != '451']
+    if not all_openfail:
+        raise AnalysisBroken('smtp_data: failing qmail_open() not explored')
+    r4.check(not bad_open, 'smtpd:qmail_open-checked', sd.unit + ':smtp_data', 'qmail_open() fails and smtp_data goes on with %s, answering %s (documented: nothing more, 451)' % (bad_open[0] if bad_open else '', bad_open[0][1] if bad_open else ''))
     for inst, v in sorted(smtpd_size_sites(db, rep).items()):
         r4.check(v[0], inst, v[1], v[2], v[3])
     for inst, v in sorted(databytes_setup_sites(db, rep).items()):
